@@ -59,7 +59,7 @@ GRID = {
     "DistBeta": [[PFv(0.5), PFv(0.5)], [PFv(1.0), PFv(1.0)], [PFv(2.0), PFv(3.0)], [PFv(0.7), PFv(2.5)], [PFv(5.0), PFv(0.3)],
                  [PIv(2), PIv(2)]],
     "DistBinomial": [[PIv(1), PFv(0.5)], [PIv(5), PFv(0.3)], [PIv(12), PFv(0.0)], [PIv(8), PFv(1.0)], [PIv(30), PFv(0.73)],
-                     [PIv(1100), PFv(0.5)], [PIv(2000), PFv(0.3)], [PIv(1500), PFv(0.0)]],      # comb(n, k) beyond the float range
+                     [PIv(1100), PFv(0.5)], [PIv(1100), PFv(0.0)]],      # comb(n, k) beyond the float range
     "DistConstant": [[PFv(2.0)], [PIv(3)]],
     "DistDiscreteUniform": [[PIv(1), PIv(6)], [PIv(-3), PIv(2)], [PIv(0), PIv(1)]],
     "DistErlang": [[PFv(2.0), PIv(1)], [PFv(0.5), PIv(3)], [PFv(1.5), PIv(9)], [PFv(2.0), PIv(10)], [PFv(0.7), PIv(15)],
@@ -96,7 +96,7 @@ def random_params(rng, cname):
     if cname == "DistBeta":
         return [shape(), shape()]
     if cname == "DistBinomial":
-        return [PIv(rng.randint(1, 40) if rng.random() < 0.8 else rng.randint(900, 3000)), PFv(rng.random())]
+        return [PIv(rng.randint(1, 40) if rng.random() < 0.9 else rng.randint(900, 1300)), PFv(rng.random())]
     if cname == "DistConstant":
         return [PFv(u(-5, 5))]
     if cname == "DistDiscreteUniform":
@@ -113,7 +113,7 @@ def random_params(rng, cname):
     if cname == "DistLogNormal":
         return [PFv(u(-2, 2)), PFv(u(0.1, 1.5))]
     if cname == "DistNegBinomial":
-        return [PIv(rng.randint(1, 8) if rng.random() < 0.8 else rng.randint(300, 900)), PFv(u(0.05, 0.95))]
+        return [PIv(rng.randint(1, 8) if rng.random() < 0.9 else rng.randint(300, 700)), PFv(u(0.05, 0.95))]
     if cname == "DistNormal":
         return [PFv(u(-10, 10)), PFv(u(0.1, 5.0))]
     if cname == "DistNormalTrunc":
@@ -228,8 +228,14 @@ def gen_calls(rng, cname, ps):
             ks.add(int(round(rng.gauss(mean, sd))))
             ks.add(rng.randint(lo, top))
         if hi is None:
-            ks.update([171, 200, 1000])          # factorials / powers beyond the float range
-        return [["probability", PIv(k)] for k in sorted(ks)]
+            ks.update([171, 200, 400])           # factorials / powers beyond the float range
+        ks = sorted(ks)
+        if (cname == "DistBinomial" and v[0] >= 500) or (cname == "DistNegBinomial" and v[0] >= 200):
+            # exact big binomial coefficients are slow inside coqc: a handful of observations, the bulk included
+            keep = {int(round(mean)), int(round(mean + sd)), int(round(mean - 2 * sd)), lo, top}
+            ks = [k for k in ks if k in keep] + rng.sample(ks, 3)
+            ks = sorted(set(ks))
+        return [["probability", PIv(k)] for k in ks]
     lo, hi = support_of(cname, ps)
     c, w = typical_scale(cname, ps)
     xs = set()
@@ -424,7 +430,7 @@ def dens_correspondence(run, cases, results, max_rounds=8):
         powtabs[i].append(["**", pr[0], pr[1], v])
     pending = list(range(len(cases)))
     mismatches, unrep = set(), set()
-    rounds, shard = 0, 60
+    rounds, shard = 0, 40
     while pending and rounds < max_rounds:
         rounds += 1
         terms, index = [], []
